@@ -83,7 +83,9 @@ FIELD = st.one_of(
                      "p;q|r;s", "k__A; p__B", "007", "5.0", "abc", "é",
                      # characters str.splitlines() breaks on but a
                      # tab-separated *line* does not end at
-                     "a\u2028b", "x\x0cy z", "p\x85q", "m\x1dn", "v\x0bw"]),
+                     "a\u2028b", "x\x0cy z", "p\x85q", "m\x1dn", "v\x0bw",
+                     # quotes inside a value (all double quotes are dropped)
+                     '5" pvc', 'said "ok" twice', '"', "it's"]),
     st.text("abcXYZ019 ._-;|", max_size=6).map(lambda s: s.strip()))
 COLS = ["Treatment", "pH", "Days", "taxonomy", "KEGG", "Body Site", "Notes"]
 OVERRIDE_NAMES = ["SampleID", "c1", "c2", "c3", "c4", "c5", "c6", "c7"]
@@ -192,7 +194,12 @@ def check_api(case, rec):
         if case.get("only_unknown"):
             chosen = []
             rec.cls("mapping-names-no-table-id")
-        chosen += ["unknown-id-%d" % j for j in range(case["extra_ids"])]
+        # unknown IDs, the first of them a near miss of a real one (the
+        # longest ID of the axis, extended)
+        longest = max(ids, key=len)
+        unknown = [u for u in (longest + "0", "unknown-id-1", longest + " x")
+                   if u not in ids][:case["extra_ids"]]
+        chosen += unknown
         mapping = {i: dict(case["entries"][k % 10])
                    for k, i in enumerate(chosen)}
         arg = deepcopy(mapping)
